@@ -41,37 +41,38 @@ fn noop_sixteen(c: &mut Hc128Core) {
 const NADD: usize = 4 * 1264;
 static mut ADD_N: usize = 0;
 static mut ADD_OK: bool = true;
-static mut ADD_PREV: u32 = 0;
+static mut ADD_PREV: u64 = 0;
 // the rolling window as 16 scalar statics (static ARRAYS that receive fresh
 // symbolic values inside the stub make CBMC's SSA conversion explode, section 10)
-static mut W_0: u32 = 0;
-static mut W_1: u32 = 0;
-static mut W_2: u32 = 0;
-static mut W_3: u32 = 0;
-static mut W_4: u32 = 0;
-static mut W_5: u32 = 0;
-static mut W_6: u32 = 0;
-static mut W_7: u32 = 0;
-static mut W_8: u32 = 0;
-static mut W_9: u32 = 0;
-static mut W_10: u32 = 0;
-static mut W_11: u32 = 0;
-static mut W_12: u32 = 0;
-static mut W_13: u32 = 0;
-static mut W_14: u32 = 0;
-static mut W_15: u32 = 0;
+static mut W_0: u64 = 0;
+static mut W_1: u64 = 0;
+static mut W_2: u64 = 0;
+static mut W_3: u64 = 0;
+static mut W_4: u64 = 0;
+static mut W_5: u64 = 0;
+static mut W_6: u64 = 0;
+static mut W_7: u64 = 0;
+static mut W_8: u64 = 0;
+static mut W_9: u64 = 0;
+static mut W_10: u64 = 0;
+static mut W_11: u64 = 0;
+static mut W_12: u64 = 0;
+static mut W_13: u64 = 0;
+static mut W_14: u64 = 0;
+static mut W_15: u64 = 0;
 
 #[allow(static_mut_refs)]
 fn w16(k: usize) -> u32 {
     unsafe {
-        match k % 16 {
+        (match k % 16 {
             0 => W_0, 1 => W_1, 2 => W_2, 3 => W_3, 4 => W_4, 5 => W_5, 6 => W_6, 7 => W_7,
             8 => W_8, 9 => W_9, 10 => W_10, 11 => W_11, 12 => W_12, 13 => W_13, 14 => W_14, _ => W_15,
-        }
+        }) as u32
     }
 }
 #[allow(static_mut_refs)]
 fn w16_set(k: usize, v: u32) {
+    let v = v as u64;
     unsafe {
         match k % 16 {
             0 => W_0 = v, 1 => W_1 = v, 2 => W_2 = v, 3 => W_3 = v, 4 => W_4 = v, 5 => W_5 = v, 6 => W_6 = v, 7 => W_7 = v,
@@ -97,14 +98,14 @@ fn add_cut(a: u32, b: u32) -> u32 {
             let chk = i >= ADD_LO && i < ADD_HI;
             match ADD_N % 4 {
                 0 => ADD_OK &= !chk || pair(a, b, crate::ref_hc128::f2(w16(i - 2)), w16(i - 7)),
-                1 => ADD_OK &= !chk || pair(a, b, ADD_PREV, crate::ref_hc128::f1(w16(i - 15))),
-                2 => ADD_OK &= !chk || pair(a, b, ADD_PREV, w16(i - 16)),
+                1 => ADD_OK &= !chk || pair(a, b, ADD_PREV as u32, crate::ref_hc128::f1(w16(i - 15))),
+                2 => ADD_OK &= !chk || pair(a, b, ADD_PREV as u32, w16(i - 16)),
                 _ => {
-                    ADD_OK &= !chk || pair(a, b, ADD_PREV, i as u32);
+                    ADD_OK &= !chk || pair(a, b, ADD_PREV as u32, i as u32);
                     w16_set(i, r);
                 }
             }
-            ADD_PREV = r;
+            ADD_PREV = r as u64;
         }
         ADD_N += 1;
         r
@@ -134,6 +135,7 @@ expand_band!(expand_operands_6, 784, 912);
 expand_band!(expand_operands_7, 912, 1040);
 expand_band!(expand_operands_8, 1040, 1168);
 expand_band!(expand_operands_9, 1168, 1280);
+expand_band!(expand_operands_all, 16, 1280);
 
 #[allow(static_mut_refs)]
 fn expand_operands_body(lo: usize, hi: usize) {
@@ -200,6 +202,27 @@ pub fn expand_placement() {
     }
     assert!(ok);
     kani::cover!(seed[3] == 7, "reachable");
+}
+
+fn add_fresh(_a: u32, _b: u32) -> u32 {
+    kani::any()
+}
+
+/// Panic-freedom of init for every seed (C14): every wrapping addition returns
+/// an arbitrary value (an over-approximation of the real sums), so any checked
+/// arithmetic or index computed from table words is exercised with arbitrary
+/// operands; Kani's built-in checks inside init are what this harness is for.
+#[kani::proof]
+#[kani::unwind(1300)]
+#[kani::stub(rand_hc::Hc128Core::sixteen_steps, noop_sixteen)]
+#[kani::stub(u32::wrapping_add, add_fresh)]
+#[allow(static_mut_refs)]
+pub fn expand_panicfree() {
+    let seed: [u32; 8] = kani::any();
+    let core = Hc128Core::verif_init(seed);
+    assert!(core.verif_counter() == 0);
+    assert!(unsafe { SIXTEEN_CALLS } == 64 && unsafe { SIXTEEN_OK });
+    kani::cover!(seed[0] == 0xffff_ffff, "all-ones key word");
 }
 
 // ------------------------------------------------------------------- steps
